@@ -298,7 +298,9 @@ func (g *sheetGen) color() string {
 	case 14:
 		if g.o.wideColors {
 			g.note("val-wide-color")
-			return []string{"lab(50% 20 -30)", "oklch(60% 0.15 50)", "color(display-p3 1 0 0)", "lch(50 30 120 / .5)"}[r.Intn(4)]
+			return []string{"lab(50% 20 -30)", "lab(60 10% -15%)", "lab(40% -20% 10 / .5)", "oklab(60% 0.05 -0.05)", "oklab(.7 10% -20%)",
+				"oklch(60% 0.08 50)", "oklch(70% 20% 200deg)", "lch(50 30 120 / .5)", "lch(60% 25 40)", "lch(70 20 0.5turn)",
+				"lch(60% 20% 120)", "lch(50 30% 40)", "lab(120% 0 0)", "oklch(.5 .5 30)"}[r.Intn(14)]
 		}
 		return "currentColor"
 	}
